@@ -11,12 +11,24 @@ COQ_DEPS = ["C03"]
 PROFILES = ["debug"]
 CORR_IMPORT = "From RlibV Require Import C03.Model C03.Corr C16.Model C16.Corr.\nOpen Scope Z_scope."
 AUDIT_IMPORT = ("From Coq Require Import ZArith List Bool.\nImport ListNotations.\n"
-                "From RlibV Require Import C03.Model C03.Corr C16.Model C16.Corr C16.Properties.\nOpen Scope Z_scope.")
+                "From RlibV Require Import C03.Model C03.Corr C16.Model C16.Corr C16.Proofs C16.Properties.\nOpen Scope Z_scope.")
 EXPLAIN = "explain"
 CASE_TYPE = "case"
 AXIOM_ALLOW = []
 SHARD = 1500
-THEOREMS = []
+SEARCH_MAX = 3000      # size of the enlarged search after a model-only mismatch
+THEOREMS = [
+    ('c16_heap_preserved',
+     'forall (T M V A : Type) (update : T -> option T -> option T -> T) (push : T -> option T -> option T -> T * option T * option T) (size : T -> Z) (modify : M -> T -> T) (elem : T -> V) (agg : T -> A) (ps : list Z) (ops : list (@op T M V)), Forall Heap (run_final update push size modify elem agg ps ops)'),
+    ('c16_priorities_only_moved',
+     'forall (T M : Type) (update : T -> option T -> option T -> T) (push : T -> option T -> option T -> T * option T * option T) (size : T -> Z) (modify : M -> T -> T), (forall a b : @tree T, Heap a -> Heap b -> Heap (merge update push a None b None) /\\ prios (merge update push a None b None) = prios a ++ prios b) /\\ (forall (t : @tree T) k a b, Heap t -> split_at update push size t None k = (a, b) -> Heap a /\\ Heap b /\\ prios a ++ prios b = prios t) /\\ (forall q (t : @tree T) a b, Heap t -> split_by update push q t None = (a, b) -> Heap a /\\ Heap b /\\ prios a ++ prios b = prios t) /\\ (forall t : @tree T, Heap t -> (Heap (fst (first push t None)) /\\ prios (fst (first push t None)) = prios t) /\\ (Heap (fst (last push t None)) /\\ prios (fst (last push t None)) = prios t) /\\ (Heap (fst (collect push t None)) /\\ prios (fst (collect push t None)) = prios t)) /\\ (forall (t : @tree T) k x p, Heap t -> Heap (insert_at update push size t k x p) /\\ exists l r, prios t = l ++ r /\\ prios (insert_at update push size t k x p) = l ++ p :: r) /\\ (forall (t : @tree T) k, Heap t -> Heap (fst (remove_at update push size t k)) /\\ exists l m r, prios t = l ++ m ++ r /\\ prios (fst (remove_at update push size t k)) = l ++ r) /\\ (forall m (t : @tree T), Heap t -> Heap (modify_root modify m t) /\\ prios (modify_root modify m t) = prios t)'),
+    ('c16_canonical',
+     'forall (T : Type) (t1 t2 : @tree T), Heap t1 -> Heap t2 -> inorder t1 = inorder t2 -> NoDup (map fst (inorder t1)) -> t1 = t2'),
+    ('c16_heapb_Heap',
+     'forall (T : Type) (t : @tree T), heapb t = true <-> Heap t'),
+    ('c16_height_partial',
+     'forall k : Z, 0 <= k <= 14 -> let n := 2 ^ k in (height (fam step_append n) <= 5 * Z.log2 (n + 1) + 20 /\\ Heap (fam step_append n) /\\ tsize isize (fam step_append n) = n) /\\ (height (fam step_front n) <= 5 * Z.log2 (n + 1) + 20 /\\ Heap (fam step_front n) /\\ tsize isize (fam step_front n) = n) /\\ (height (fam step_rotate n) <= 5 * Z.log2 (n + 1) + 20 /\\ Heap (fam step_rotate n) /\\ tsize isize (fam step_rotate n) = n)'),
+]
 RULE = ("the multi-treap histories of C03 (two item kinds; priorities random / tiny range with ties / all equal / increasing / "
         "decreasing / native draws of the thread-local generator); observed = full final shape of every live treap through the "
         "public fields left/right/priority/item + final collect(); non-trivial = some final treap has >= 3 nodes and the history "
